@@ -55,9 +55,13 @@ def build_file(lang, tag, places, r, style, run_at_end=False):
             lines.append(f"{ind}{tag}_step_{uid} = {tag}_stage_{uid}(state, {uid + 11}){end}")
             uid += 1
         first = len(lines) + 1
-        extra = ind if (style == "indented" and k == 0) else ""
+        extra = ind if (style in ("indented", "callback") and k == 0) else ""
         if extra:
-            lines.append(f"{ind}if state:" if py else f"{ind}if (state) {{")
+            if style == "callback" and not py:
+                # the run is the body of a function passed to a multi-line call (the usual JS callback shape)
+                lines.append(f"{ind}register(\"{tag}\", function (payload) {{")
+            else:
+                lines.append(f"{ind}if state:" if py else f"{ind}if (state) {{")
             first = len(lines) + 1
         for i in range(r):
             if style == "commented" and i == 1:
@@ -73,7 +77,7 @@ def build_file(lang, tag, places, r, style, run_at_end=False):
             lines.append(f"{ind}{extra}{s}")
         last = len(lines)
         if extra and not py:
-            lines.append(f"{ind}}}")
+            lines.append(f"{ind}}});" if style == "callback" else f"{ind}}}")
         occ.append((first, last))
         if run_at_end and py and k == len(places) - 1:
             return lines, occ          # the planted run is the very end of the file
@@ -99,7 +103,7 @@ def make_h(tier):
         r = ctx.pick("run_length", (1, 2, 3, 4, 6) if quick else (1, 2, 3, 4, 5, 6, 7))
         layout = ctx.pick("layout", ("A+B", "A+A", "A+B+C", "A+A+B", "A-only-once") if quick else
                           ("A+B", "A+A", "A+B+C", "A+A+B", "A-only-once", "A+A+A", "A+B+B+C"))
-        style = ctx.pick("style", ("plain", "indented", "commented", "commented-late", "spaced", "trailing-comment"))
+        style = ctx.pick("style", ("plain", "indented", "callback", "commented", "commented-late", "spaced", "trailing-comment"))
         off = ctx.pick("offset", (0, 1, 3))
         at_end = ctx.flag("run_at_end_of_last_file") if lang == "python" else False
         minocc = ctx.int("min_occurrences", 1)
